@@ -69,7 +69,12 @@ def bastion_model(m):
     return {"Class": cls}
 
 
+def sumdb_model(m):
+    return {"ToSize": int(m.get("toSize", 0)), "FromSize": max(1, int(m.get("fromSize", 1)))}
+
+
 CONCRETISERS = {
+    "sumdb.FeedLog$1": ("internal/feeder/sumdb", "zz_verif_replay_test.go", "replay/sumdb_replay_test.go", "TestVerifReplaySumDB", sumdb_model),
     "bastion.addHandler).handleUpdate": ("internal/feeder/bastion", "zz_verif_replay_test.go", "replay/bastion_replay_test.go", "TestVerifReplayBastion", bastion_model),
     "bastion.addHandler).ServeHTTP": ("internal/feeder/bastion", "zz_verif_replay_test.go", "replay/bastion_replay_test.go", "TestVerifReplayBastion", bastion_model),
     "witness.Witness).Update": ("internal/witness", "zz_verif_replay_test.go", "replay/update_replay_test.go", "TestVerifReplayUpdate", update_model),
